@@ -79,6 +79,22 @@ def run(chk):
         fn = chk.func(U.POISSON, f"DensityFinder.{m}")
         c = [x for x in ast.walk(fn) if isinstance(x, ast.Call) and isinstance(x.func, ast.Name) and x.func.id == kname][0]
         agree.check_roles(chk, U.POISSON, f"DensityFinder.{m}", c, [a.arg for a in chk.func(U.PTOOLS, kname).args.args], table)
+        # the output argument is the whole storage of the density grid
+        bb = agree.bind_call(c, [a.arg for a in chk.func(U.PTOOLS, kname).args.args]) or {}
+        out = bb.get("rho")
+        so = src(out) if out is not None else "?"
+        oko = True if so == "rho.getAllData()" else None
+        why = "the kernel writes the storage of the density grid itself"
+        if oko is None and out is not None and so.startswith("rho.getAllData()"):
+            rest = so[len("rho.getAllData()"):]
+            if rest in (".real", ".imag") or rest.startswith("["):
+                oko = False
+                why = (f"the kernel writes `{so}`, a partial view of the density storage: for a complex density grid the "
+                       "other part keeps whatever it held (e.g. the imaginary part left by the previous in-place Fourier transform), "
+                       "so the grid no longer holds the velocity integral")
+        elif oko is None:
+            why = f"output argument `{so}` not recognised"
+        chk.ob("E2-output-storage", out or c, f"{kname}: rho <- {so}", oko, why, file=U.POISSON, func=f"DensityFinder.{m}")
         if m == "getPerturbedRho":
             b = agree.bind_call(c, [a.arg for a in chk.func(U.PTOOLS, kname).args.args]) or {}
             fe = b.get("feq")
